@@ -9,12 +9,13 @@ class C08(Spec):
     harness = "h_c08"
     lean_deps = ("C06", "C07")
     required_theorems = ("C08.localdb_refines_spec", "C08.reachable_refines", "C08.rollback_discards_exactly_tx",
-                         "C08.commit_keeps", "C08.list_agrees_get")
+                         "C08.commit_keeps", "C08.list_agrees_get", "C08.readonly_answers_from_base")
     level_text = ("Lean theorems about the model of common/db.LocalDB (txcache/cache/maindb, read-through fill, Begin/Commit/"
                   "Rollback, List/PrefixCount through the merged iterator) against the (base, overlay, optional tx) "
                   "specification; tied to the code by a line-by-line differential run over generated histories on a "
                   "pre-populated GoLevelDB base; Get/List/PrefixCount are checked against the specification on the implementation.")
     level_note = ("Begin inside an open transaction discards the open writes (the code's behaviour, taken as specified); "
+                  "the read-only mode (cache == nil) is modelled with Set as an explicit panic outcome and tied; "
                   "blockchain/localdb.go (queue handlers that forward to LocalDB, and the handle-less Get/List/PrefixCount "
                   "requests that read the committed database) is driven on a testnode by a second harness (h_c08q) in both tiers.")
     assumptions = (
